@@ -349,6 +349,34 @@ def run(model: RepoModel, rep, tier: str):
                         if isinstance(x, ast.Call) and (call_name(x) or "")[:1].isupper():
                             return _hash_kind_of_class(model, g_, call_name(x)), f"{norm(c_)[:50]} ({call_name(x)})"
         return "unknown", ann
+    # attributes that are dicts of sets: filled with `add_to_dict_with_default_set(<obj>.A, key, element)`
+    dict_of_sets: Dict[str, Tuple[Func, ast.Call]] = {}
+    for g_ in model.all_funcs():
+        for c_ in walk_no_nested(g_.node):
+            if isinstance(c_, ast.Call) and (call_name(c_) or "").endswith("add_to_dict_with_default_set") and len(c_.args) >= 3 and isinstance(c_.args[0], ast.Attribute):
+                dict_of_sets.setdefault(c_.args[0].attr, (g_, c_))
+
+    def dictset(e) -> Optional[str]:
+        """`<obj>.A[k]` / `<obj>.A.get(k, ...)` for a dict-of-sets attribute A"""
+        if isinstance(e, ast.Subscript) and isinstance(e.value, ast.Attribute) and e.value.attr in dict_of_sets:
+            return e.value.attr
+        if isinstance(e, ast.Call) and isinstance(e.func, ast.Attribute) and e.func.attr == "get" and isinstance(e.func.value, ast.Attribute) \
+                and e.func.value.attr in dict_of_sets:
+            return e.func.value.attr
+        return None
+
+    def dictset_kind(attr: str) -> Tuple[str, str]:
+        g_, c_ = dict_of_sets[attr]
+        el = c_.args[2]
+        cands = [el] + ([d.value for d in walk_no_nested(g_.node) if isinstance(d, ast.Assign) and isinstance(d.targets[0], ast.Name)
+                         and isinstance(el, ast.Name) and d.targets[0].id == el.id])
+        for x in cands:
+            if isinstance(x, ast.Call) and (call_name(x) or "")[:1].isupper():
+                return _hash_kind_of_class(model, g_, call_name(x)), f"{norm(c_)[:60]} ({call_name(x)})"
+        t = norm(el)
+        if any(h in t for h in INT_NAME_HINTS) and not any(t.endswith(h) for h in STR_NAME_HINTS):
+            return "int", t
+        return "unknown", t
     n_sites = 0
     for f in model.all_funcs():
         if f.module.rel.startswith("lang/") and f.module.rel != "lang/lang_analysis.py":
@@ -370,6 +398,8 @@ def run(model: RepoModel, rep, tier: str):
                 what = ("expr", norm(it))
             elif field_set(it):
                 what = ("field", field_set(it))
+            elif dictset(it):
+                what = ("dictset", dictset(it))
             elif isinstance(it, ast.Name) and it.id in local_field_sets:
                 what = ("field", local_field_sets[it.id])
             if what is None:
@@ -378,6 +408,8 @@ def run(model: RepoModel, rep, tier: str):
             key = f"{f.ref}::for over set `{norm(it)}`"
             if what[0] == "field":
                 kind, ev = field_set_kind(what[1])
+            elif what[0] == "dictset":
+                kind, ev = dictset_kind(what[1])
             else:
                 kind, ev = ("unknown", "") if what[0] == "expr" else _elem_kind(f, what[1], what[0] == "attr", model)
             if kind == "unknown" and isinstance(n.target, ast.Name):
@@ -597,7 +629,47 @@ LOCATION_TESTS_OK = {
 }
 
 
+def check_path_prefix_tests(model: RepoModel, rep, RID: str) -> int:
+    """`path.startswith(prefix)` on path strings means "lies under prefix" only when the prefix ends with a separator:
+    `/in/lian_workspace_utils`.startswith(`/in/lian_workspace`) is true although the first is a sibling of the second.  Every such
+    test between two paths must use `prefix + os.sep` (or compare whole paths / use commonpath)."""
+    n = 0
+    PATHY = ("path", "workspace", "root", "dir", "real")
+    for rel, mod in sorted(model.modules.items()):
+        if rel.startswith("lang/") and rel != "lang/lang_analysis.py":
+            continue
+        for f in mod.all_funcs():
+            for c in walk_no_nested(f.node):
+                if not (isinstance(c, ast.Call) and isinstance(c.func, ast.Attribute) and c.func.attr == "startswith" and len(c.args) == 1):
+                    continue
+                recv, pre = c.func.value, c.args[0]
+                recv_path = (isinstance(recv, ast.Call) and (call_name(recv) or "").startswith("os.path.")) or any(h in norm(recv).lower() for h in PATHY)
+                pre_x = _expand_local(f, pre)
+                pre_path = not isinstance(pre_x, (ast.Constant, ast.JoinedStr, ast.Tuple)) and (any(h in norm(pre_x).lower() for h in PATHY)
+                                                                                                 or any(h in norm(pre).lower() for h in PATHY))
+                if not (recv_path and pre_path):
+                    continue
+                n += 1
+                key = f"{rel}::{f.qualname}::`{norm(c)[:80]}`::a path prefix ends with a separator"
+                ends_sep = any(isinstance(x, ast.BinOp) and isinstance(x.op, ast.Add) and ((dotted(x.right) or "") in ("os.sep", "os.path.sep")
+                                                                                          or (isinstance(x.right, ast.Constant) and x.right.value in ("/", "\\")))
+                               for x in [pre_x, pre] if isinstance(x, ast.BinOp)) \
+                    or any(isinstance(x, ast.Call) and call_name(x) == "os.path.join" and x.args and isinstance(x.args[-1], ast.Constant) and x.args[-1].value == "" for x in [pre_x, pre])
+                if ends_sep:
+                    rep.holds(RID, key, rel, c.lineno, "prefix + separator")
+                elif (dotted(pre_x) or "").startswith("config.") and "workspace" not in norm(pre_x).lower():
+                    rep.info(RID, key, rel, c.lineno, "the prefix is a directory of the installed package (a configuration constant), not a location the user "
+                                                      "chooses: no workspace or input placement changes the outcome")
+                else:
+                    rep.violation(RID, key, rel, c.lineno,
+                                  f"{f.qualname} tests `{norm(c)[:90]}`: a string prefix test between two paths without a trailing separator also holds "
+                                  f"for SIBLINGS whose name merely starts the same way (`.../lian_workspace_utils` vs `.../lian_workspace`): which "
+                                  f"directories are skipped or classified then depends on where the workspace is and what it is called")
+    return n
+
+
 def _r5_location_independence(model: RepoModel, rep):
+    check_path_prefix_tests(model, rep, "C14.R5")
     n = 0
     for rel, mod in sorted(model.modules.items()):
         if rel.startswith("lang/") and rel != "lang/lang_analysis.py":
